@@ -530,9 +530,15 @@ def pack_into_passes(nng, arch, verbose_packing=False):
                     # Op has dynamic weights, include this in the check below
                     ifm2 = ps.ops[0].weights
 
+            # Operators with more than two inputs (e.g. Concat) depend on all of them
+            other_inputs_ok = all(
+                inp is None or inp in sg.input_tensors or (len(inp.ops) == 1 and inp.ops[0].type == Op.Const)
+                for inp in ps.ops[0].inputs
+            )
             if ps.placement == PassPlacement.Cpu and (
                 ps.ops[0].ifm in sg.input_tensors
                 and (ifm2 in sg.input_tensors or ifm2 is None)
+                and other_inputs_ok
                 or (ps.ops[0].type in (Op.VarHandle, Op.ReadVariable, Op.CallOnce))
             ):
                 # This CPU pass only depends on sg.input_tensors or resource variable
@@ -563,7 +569,7 @@ def pack_into_passes(nng, arch, verbose_packing=False):
 
                 # Check all outputs from the cpu pass
                 if (
-                    any(ofm in [next_ps.ops[0].ifm, next_ps.ops[0].ifm2] for ofm in cpu_ps.ops[0].outputs)
+                    any(ofm in op.inputs for op in next_ps.ops for ofm in cpu_ps.ops[0].outputs)
                     or next_ps.placement == PassPlacement.MemoryOnly
                 ):
                     # Not possible to move since next pass depends on the output from the cpu pass
